@@ -102,20 +102,28 @@ pub fn put_pres(w: &mut W, ty: Ty, s: &str) {
     }
 }
 
-/// the one line fed to a `Reader` (terminated by LF): status of the item sequence of `records()` and of
-/// `into_records()`: `ok` / `err` (exactly one item) | `n<k>` (k != 1 items) | `panic`
+/// the line fed to a `Reader` between two well-formed lines (all LF-terminated): status of the item sequence
+/// of `records()` and of `into_records()`: `ok` / `err` = three items, the outer two Ok, the middle one Ok / Err |
+/// `ctx` = three items but a neighbour of the line did not come back Ok | `n<k>` = k != 3 items | `panic`
 pub fn reader_status(ty: Ty, line: &str) -> (String, String) {
     use bed_utils::bed::io::Reader;
     fn st<B>(v: Result<Vec<std::io::Result<B>>, Box<dyn std::any::Any + Send>>) -> String {
-        match v { Err(_) => "panic".into(), Ok(v) => if v.len() != 1 { format!("n{}", v.len()) } else if v[0].is_ok() { "ok".into() } else { "err".into() } }
+        match v {
+            Err(_) => "panic".into(),
+            Ok(v) => if v.len() != 3 { format!("n{}", v.len()) } else if !(v[0].is_ok() && v[2].is_ok()) { "ctx".into() } else if v[1].is_ok() { "ok".into() } else { "err".into() },
+        }
     }
     fn both<B: std::str::FromStr<Err = ParseError> + BEDLike>(data: &[u8]) -> (String, String) {
         let a = std::panic::catch_unwind(|| { let mut r = Reader::new(data, None); let v: Vec<std::io::Result<B>> = r.records::<B>().collect(); v });
         let b = std::panic::catch_unwind(|| Reader::new(data, None).into_records::<B>().collect::<Vec<std::io::Result<B>>>());
         (st(a), st(b))
     }
-    let mut data = line.as_bytes().to_vec();
-    data.push(b'\n');
+    let good = match ty {
+        Ty::Gr | Ty::Bed(3) => "chr1\t1\t2", Ty::Bed(4) => "chr1\t1\t2\tn", Ty::Bed(5) => "chr1\t1\t2\tn\t5", Ty::Bed(_) => "chr1\t1\t2\tn\t5\t+",
+        Ty::NarrowPeak => "chr1\t1\t2\tn\t5\t+\t1.5\t2\t3\t4", Ty::BroadPeak => "chr1\t1\t2\tn\t5\t+\t1.5\t2\t3",
+        Ty::BgInt => "chr1\t1\t2\t7", Ty::BgFloat => "chr1\t1\t2\t0.5",
+    };
+    let data = format!("{}\n{}\n{}\n", good, line, good).into_bytes();
     match ty {
         Ty::Gr => both::<GenomicRange>(&data),
         Ty::Bed(3) => both::<BED<3>>(&data), Ty::Bed(4) => both::<BED<4>>(&data), Ty::Bed(5) => both::<BED<5>>(&data), Ty::Bed(_) => both::<BED<6>>(&data),
